@@ -6,3 +6,16 @@ open FormulaeModel
 #print axioms C15.C15_prop_value
 #print axioms C15.C15_prop_constant
 #print axioms C15.C15_full_rows
+#print axioms C15.C15_predictors_function
+#print axioms C15.C15_independent
+#print axioms C15.C15_independent_tilde
+#print axioms C15.C15_independent_same_data
+#print axioms C15.C15_response_only_from_tilde
+#print axioms C15.C15_none
+#print axioms C15.C15_none_chars
+#print axioms C15.C15_tilde_has_response
+#print axioms C15.C15_response_coded_full
+#print axioms C15.C15_categorical_value
+#print axioms C15.C15_categorical_entry
+#print axioms C15.C15_subset_value_general
+#print axioms C15.C15_subset_absent_level
